@@ -114,7 +114,7 @@ class PathExec:
                     elif init["k"] == "struct" and init["res"]["path"] == "tls_record::TlsRecordHeader":
                         env[p["id"]] = self.pseudo_header(init)
                     else:
-                        env[p["id"]] = "val:" + text(init)
+                        env[p["id"]] = ("hir", init)
                     continue
                 actions = actions + ("Other(let %s)" % text(init),)
                 continue
@@ -282,7 +282,29 @@ class PathExec:
             a, b = pos_name, "!" + pos_name
         return (b, a) if neg else (a, b)
 
+    def inline(self, e, env, depth=0):
+        """replace locals bound by `let x = <pure expr>` with that expression (copy-on-write)"""
+        if not isinstance(e, dict) or depth > 12:
+            return e
+        e2 = strip(e)
+        if e2.get("k") == "local":
+            v = env.get(e2["id"])
+            if isinstance(v, tuple) and v and v[0] == "hir":
+                return self.inline(v[1], env, depth + 1)
+            return e
+        out = dict(e)
+        for key in ("f", "recv", "a", "b", "x", "c"):
+            if isinstance(e.get(key), dict):
+                out[key] = self.inline(e[key], env, depth + 1)
+        if isinstance(e.get("args"), list):
+            out["args"] = [self.inline(a, env, depth + 1) for a in e["args"]]
+        return out
+
     def cond_class(self, c, env):
+        c = strip(self.inline(c, env))
+        return self.cond_class0(c, env)
+
+    def cond_class0(self, c, env):
         if c["k"] == "mcall" and c.get("path") == "tls_records_parser::TlsRecordsParser::defrag_in_progress" and text(c["recv"]) == "self":
             return "in_progress"
         if c["k"] == "mcall" and c["name"] in ("is_some", "is_none") and is_self_field(c["recv"], "current_record_type") and (c.get("path") or "").startswith("core::option::Option"):
